@@ -133,11 +133,51 @@ def gen_c07_outbound(g, lines, k):
     g.count("wire_c07_outbound_%s" % ("rcvd" if rcvd else "norcvd"))
     lines.append("wire end")
 
+def gen_c08(g, lines, k):
+    """hostile field values against the REAL service (real UDP/TCP transports, real client-transport selection): after each
+    batch a well-formed request must still be relayed"""
+    from . import hostile
+    base = 21000 + NONCE * 800 + 720 + (k % 5) * 8
+    lip, P, T, BP, UP = "127.0.0.1", base, base + 1, base + 2, base + 3
+    be = "127.0.1.1:%d" % BP
+    ua = "127.0.2.1:%d" % UP
+    lines.append("wire start %s" % hx(yaml_cfg("svc.test", lip, P, T, [None, True][k % 2], ["udp://" + be])))
+    lines.append("wire bind %s" % hx(be))
+    lines.append("wire bind %s" % hx(ua))
+    def probe(tag):
+        v = Via("UDP", "127.0.2.1", UP, [("branch", "z9hG4bKLIVE" + g.word(ALNUM.upper(), 6, 9)), ("rport", "")])
+        req = msg("OPTIONS sip:svc.test SIP/2.0", [("Via", v.text()), ("From", "<sip:p@ua.test>;tag=1"), ("To", "<sip:svc.test>"), ("Call-ID", "live-" + tag), ("CSeq", "1 OPTIONS")])
+        lines.append("wire udp %s %s %s" % (hx(ua), hx("%s:%d" % (lip, P)), hx(req)))
+        lines.append("wire recv %s 1500 msg=%s # spec=C08 dest U %s" % (hx(be), hx(req), hx(be)))
+    probe("first-%d" % k)
+    batch = []
+    for h in hostile.HOSTS:
+        hb = h.replace("127.0.2.1", "127.0.2.1").encode("latin-1")
+        batch.append(hostile.VALID[2].replace(b"127.0.3.1:5070", hb).replace(b"127.0.0.1:5060", ("%s:%d" % (lip, P)).encode()))
+        batch.append(hostile.VALID[1].replace(b"10.0.0.1:5060", hb).replace(b"SIP/2.0/UDP " + hb, b"SIP/2.0/TCP " + hb).replace(b"127.0.0.1:5060", ("%s:%d" % (lip, P)).encode()))
+        batch.append(hostile.VALID[0].replace(b"10.0.0.1:5060", hb))
+    g.r.shuffle(batch)
+    for i, m in enumerate(batch[: (12 if k % 2 else 40)]):
+        lines.append("wire udp %s %s %s" % (hx(ua), hx("%s:%d" % (lip, P)), hx(m)))
+        g.count("wire_hostile_datagrams")
+        if i % 6 == 5:
+            lines.append("wire sleep 30")
+            lines.append("wire drain %s" % hx(be))
+            probe("%d-%d" % (k, i))
+    lines.append("wire sleep 30")
+    lines.append("wire drain %s" % hx(be))
+    probe("last-%d" % k)
+    lines.append("wire end")
+
 def generate(seed, tier, focus="c07"):
     g = Gen(seed)
     lines = []
     n = 6 if tier == "quick" else 60
     for k in range(n):
+        if focus == "c08":
+            if k < (2 if tier == "quick" else 30):
+                gen_c08(g, lines, k)
+            continue
         if focus == "c07":
             gen_c07(g, lines, k)
             if k < (2 if tier == "quick" else 20):
